@@ -671,7 +671,7 @@ pub fn get(id: &str, thorough: bool) -> Option<PropDef> {
         }
         "C20" => {
             let mut p = Profile::base("C20");
-            p.p_spin_long = (1, 1200);
+            p.p_spin_long = (1, 600);
             p.clients = (1, 4);
             p.ops = (2, 10);
             p.spin_us = 1500;
